@@ -1529,6 +1529,20 @@ func (s *Service) runPipeline(rp *runnablePipeline) error {
 			// Killing before Close closes that window: the sibling still has
 			// to unwind and run its own Close before it can Kill.
 			if doErr != nil {
+				if ce, ok := conduiterr.Get(doErr); ok && ce.Code == funnel.CodeSharedDestinationPoisoned {
+					// Collateral, not a root cause: a sibling failed inside the
+					// shared destination and poisoned it, and this worker was
+					// refused entry the moment the sibling released sharedMu -
+					// which is BEFORE the sibling's own Do has returned and
+					// reached the Kill above. Both workers kill right after Do, so
+					// this non-fatal symptom could still win the tomb and turn a
+					// fatal failure (DLQ write error, retry not converging) into
+					// a recovery restart. Let the root cause be recorded first.
+					select {
+					case <-rp.t.Dying():
+					case <-time.After(5 * time.Second):
+					}
+				}
 				rp.t.Kill(doErr)
 			}
 
